@@ -1095,7 +1095,10 @@ def check(tier, seed):
         keys_ok, same_pinned, kept_empty, latin1_ok = coq['table']
         run.coverage['regenerated_tables'] = {'attr_keys_ok': bool(keys_ok), 'attribute_key_table_is_the_pinned_one': bool(same_pinned),
                                               'oneline_keeps_no_latin1': bool(kept_empty), 'latin1_ascii_encodable_after_oneline': bool(latin1_ok)}
-        dup_found = any(s.startswith('duplicate-key:') for s in judge.seen_sigs)
+        from exabgp.bgp.message.update.attribute.collection import AttributeCollection as _AC
+
+        table_names = {v[2] for v in _AC.representation.values()}
+        dup_found = any(s.startswith('duplicate-key:') and set(s.rsplit(':', 1)[1].split(',')) & table_names for s in judge.seen_sigs)
         run.obligation('finite check C13_no_duplicate_keys on the regenerated table: attr_keys_ok attr_key_table = true (names of co-present codes distinct)',
                        bool(keys_ok), 'attr_keys_ok attr_key_table = false: two attribute codes that can be present together share a JSON key; '
                        + ('witness UPDATE found by the event pass (duplicate-key failing case)' if dup_found else 'no witness UPDATE found by the event pass'))
